@@ -9,6 +9,7 @@ import numpy as np
 from scipy.stats import norm, poisson
 kafe2 = imp("kafe2")
 XYFit, IndexedFit, HistFit, UnbinnedFit, HistContainer = kafe2.XYFit, kafe2.IndexedFit, kafe2.HistFit, kafe2.UnbinnedFit, kafe2.HistContainer
+XYContainer, IndexedContainer = kafe2.XYContainer, kafe2.IndexedContainer
 nxmod = imp("kafe2.core.fitters.nexus")
 R = Runner("C01", args, scope="xy / indexed / histogram / unbinned fits x all accepted cost identifiers x source mixes (simple / matrix, absolute / relative, data / model reference, x / y, enabled / disabled, model-referenced source first or only) x 0-2 constraints x 2 parameter points",
            rule="enumeration; each case compares fit.cost_function_value with the documented formula evaluated independently")
@@ -278,6 +279,71 @@ def units_oracle(inp):
         r = d - m
         if g is not None and inp["cost"] == "chi2" and not math.isclose(float(g), float(r @ np.linalg.solve(V, r)), rel_tol=1e-6, abs_tol=1e-7):
             return {"got": float(g), "expected": float(r @ np.linalg.solve(V, r)), "witness_class": f"units:gof:{stage}-fit:scale-{sc:g}"}
+
+
+def gen_xy_after_fit(tier, seed):
+    for cf in ("chi2", "nll-gaussian"):
+        for start in ((0.0, 1.0), (1.2, 0.3)):              # slope zero at the starting values / generic start
+            for xsrc in ("x_cor", "x_plain"):
+                yield {"cost": cf, "start": list(start), "x_source": xsrc}
+
+
+@R.oracle("xy_cost_after_do_fit_counts_x_correlations_whatever_the_start", gen_xy_after_fit, obligation="pointwise_version")
+def xy_after_fit(inp):
+    """an x source is projected with the model slope: at a start with slope 0 the projected matrix vanishes, which says nothing about the matrix the fit ends with"""
+    a0, b0 = inp["start"]
+    xs, ys = np.array([1.0, 2.0, 3.0, 4.0, 5.0]), np.array([2.0, 4.3, 5.8, 8.4, 9.7])
+
+    def f(x, a=a0, b=b0):
+        return a * x + b
+    fit = XYFit([xs, ys], f, cost_function=inp["cost"])
+    fit.add_error("y", 0.3)
+    rho = 0.8 if inp["x_source"] == "x_cor" else 0.0
+    fit.add_error("x", 0.2, correlation=rho)
+    fit.do_fit()
+    a, b = (float(v) for v in fit.parameter_values)
+    Rx = np.full((5, 5), rho); np.fill_diagonal(Rx, 1.0)
+    V = 0.09 * np.eye(5) + 0.04 * Rx * a * a
+    exp = generic_formula(inp["cost"], ys, f(xs, a, b), V, 0.0)
+    got = float(fit.cost_function_value)
+    if not math.isclose(got, exp, rel_tol=1e-6, abs_tol=1e-8):
+        return {"got": got, "expected": exp, "witness_class": f"xy-after-fit:{inp['cost']}:{inp['x_source']}:start-slope-{a0:g}"}
+    for dp in ((1e-3, 0), (-1e-3, 0), (0, 1e-3), (0, -1e-3)):
+        q = (a + dp[0], b + dp[1])
+        Vq = 0.09 * np.eye(5) + 0.04 * Rx * q[0] * q[0]
+        if generic_formula(inp["cost"], ys, f(xs, *q), Vq, 0.0) < exp - 1e-5:
+            return {"got": "a point 1e-3 away has a lower documented cost", "expected": "minimum of the documented cost", "witness_class": f"xy-after-fit:{inp['cost']}:{inp['x_source']}:not-a-minimum:start-slope-{a0:g}"}
+
+
+def gen_late_container(tier, seed):
+    for kind in ("xy", "indexed"):
+        for with_sources in (True, False):
+            yield {"kind": kind, "container_declares_uncertainties": with_sources}
+
+
+@R.oracle("sources_of_a_container_assigned_later_count", gen_late_container, obligation="")
+def late_container(inp):
+    """a fit created without uncertainties (implicit no-errors chi2) that is then given a container declaring sources: the sources are part of the cost"""
+    if inp["kind"] == "xy":
+        fit = XYFit([X, Y], lin)
+        c = XYContainer(X, Y)
+        if inp["container_declares_uncertainties"]:
+            c.add_error("y", 0.5)
+        m = lambda pt: lin(X, *pt)
+    else:
+        fit = IndexedFit(Y, idx_model)
+        c = IndexedContainer(Y)
+        if inp["container_declares_uncertainties"]:
+            c.add_error(0.5)
+        m = lambda pt: idx_model(*pt)
+    fit.data = c
+    pt = (1.1, 0.4)
+    fit.set_all_parameter_values(pt)
+    r = Y - m(pt)
+    exp = float(np.sum((r / 0.5) ** 2) + 2 * len(Y) * np.log(0.5)) if inp["container_declares_uncertainties"] else float(np.sum(r ** 2))
+    got = float(fit.cost_function_value)
+    if not math.isclose(got, exp, rel_tol=1e-9, abs_tol=1e-10):
+        return {"got": got, "expected": exp, "witness_class": f"late-container:{inp['kind']}:{'declared-sources-ignored' if inp['container_declares_uncertainties'] else 'no-sources'}"}
 
 
 def gen_hist(tier, seed):
